@@ -146,6 +146,75 @@ MUTANTS = {
 """,
         "then/else bodies exchanged when the then body has more than three nodes",
     ),
+    # --- round 2 of held-out classes
+    "Q1-scopes-relaxed-from-a-fifo-worklist": (
+        [
+            ("src/spox/_build.py",
+             """        for graph in self.graph_topo:
+            self.update_scope_tree(graph)
+""",
+             """        queue, seen = [self.main], {self.main}
+        while queue:
+            for sub in self.update_scope_tree(queue.pop(0)):
+                if sub not in seen:
+                    seen.add(sub)
+                    queue.append(sub)
+"""),
+            ("src/spox/_build.py",
+             """        def satisfy_constraints(node):
+            # By default, a node is bound to the scope it is found in.
+            self.scope_tree.scope_of.setdefault(node, graph)
+""",
+             """        fresh: list = []
+
+        def satisfy_constraints(node):
+            # By default, a node is bound to the scope it is found in.
+            if node not in self.scope_tree.scope_of:
+                fresh.extend(node.subgraphs)
+            self.scope_tree.scope_of.setdefault(node, graph)
+"""),
+            ("src/spox/_build.py",
+             """            lambda nd: (a._op for a in nd.dependencies),
+            satisfy_constraints,
+        )
+
+    def resolve_scopes""",
+             """            lambda nd: (a._op for a in nd.dependencies),
+            satisfy_constraints,
+        )
+        return fresh
+
+    def resolve_scopes"""),
+        ],
+        "graph_topo replaced by a FIFO work-list over scopes; a body may be processed before its owner node got its final scope",
+    ),
+    "Q2-subgraph-requirements-in-instance-attributes": (
+        [
+            ("src/spox/_build.py",
+             """        subgraph_opset_req = set()  # Keeps track of all opset imports in subgraphs
+        # Keeps track of all functions used in subgraphs
+        subgraph_functions: List[_function.Function] = []
+""",
+             """        self._sub_opset_req = subgraph_opset_req = set()
+        self._sub_functions = subgraph_functions = []
+"""),
+            ("src/spox/_build.py",
+             """            subgraph_opset_req |= subgraph._get_build_result().opset_req
+            subgraph_functions.extend(subgraph._get_build_result().functions)
+""",
+             """            self._sub_opset_req |= subgraph._get_build_result().opset_req
+            self._sub_functions.extend(subgraph._get_build_result().functions)
+"""),
+            ("src/spox/_build.py",
+             """        opset_req |= subgraph_opset_req
+        functions.extend(subgraph_functions)
+""",
+             """        opset_req |= self._sub_opset_req
+        functions.extend(self._sub_functions)
+"""),
+        ],
+        "per-call accumulators of build_subgraph became instance attributes reset by every (re-entrant) compile_graph: only the last-compiled body's requirements reach the model",
+    ),
     # --- the two classes of the held-out mutants that the first version of the check missed
     "C1a-lca-cousins-at-different-depth-go-to-root": (
         "src/spox/_build.py",
